@@ -370,10 +370,134 @@ sys.exit(1 if abs(_get_R()/8.3144598 - 1) > 2e-6 or abs(_get_kB_over_h()/(1.3806
     return res
 
 
+# cases whose real code multiplies by a FLOAT module constant (R, kB/h) are left out: sympy folds 1/8.314472 into a rounded Float, so
+# the symbolic result differs from the exact-rational formula by float rounding (outside the claim) and no exact identity holds
+SYMPY_CASES = ["rates_Arrhenius", "rates_Eyring", "equilibrium_expressions", "polynomials", "expr_valued_parameters"]
+
+REPLAY_SYMPY = '''
+sys.path.insert(0, "/verif")
+from checks.C16 import replay_sympy
+sys.exit(replay_sympy(%(case)r, %(point)s))
+'''
+
+
+def _sympy_ns(case):
+    import math
+    import sympy as sp
+
+    ns = {"Fraction": Fraction, "math": math, "be": sp, "Const": lambda x: sp.Rational(Fraction(x))}
+    syms = {}
+    for v, dom in case["vars"].items():
+        lo, hi = dom
+        syms[v] = sp.Symbol(v, integer=True) if v.startswith("n_") else sp.Symbol(v, positive=True) if (lo is not None and lo > 0) else sp.Symbol(v, real=True)
+        ns[v] = syms[v]
+    exec(case["setup"], ns)
+    return ns, syms
+
+
+def replay_sympy(casename, point):
+    """the statement's 'evaluated symbolically and then substituted': plain expression with backend=sympy on symbols, numbers substituted
+    afterwards, compared with the float evaluation of the defining formula"""
+    import sympy as sp
+
+    case = [c for c in CASES if c["name"] == casename][0]
+    ns, syms = _sympy_ns(case)
+    pt = {k: float(Fraction(v)) for k, v in point.items() if k in case["vars"]}
+    try:
+        val = eval(case["plain"], ns)
+    except Exception as e:
+        print("evaluation with the sympy backend raised %r" % (e,))
+        return 1
+    vals = list(val) if isinstance(val, (tuple, list)) else [val]
+    nsf, _ = ucase._ns(case, "float", {k: float(Fraction(v)) for k, v in point.items()})
+    ref = eval(case["formula"], nsf)
+    ref = list(ref) if isinstance(ref, (tuple, list)) else [ref]
+    bad = 0
+    for i, (a, b) in enumerate(zip(vals, ref)):
+        try:
+            av = float(sp.N(sp.sympify(a).subs({syms[k]: v for k, v in pt.items()}), 30))
+        except Exception as e:
+            print("component %d: cannot substitute numbers into %r: %r" % (i, a, e))
+            bad = 1
+            continue
+        if abs(av - float(b)) > 1e-9 * max(abs(av), abs(float(b))) + 1e-300:
+            print("MISMATCH component %d: symbolic-then-substituted %r, formula %r" % (i, av, float(b)))
+            bad = 1
+    return bad
+
+
+def task_sympy(casename):
+    """Engine S: the same expression evaluated with backend=sympy on sympy symbols, translated to z3 (vlib/s2z.py) and proved equal to the
+    defining formula for all values (the statement's 'symbolically and then substituted')"""
+    import sympy as sp
+    from vlib.s2z import Conv
+    from vlib.ufnorm import UFNorm
+    from vlib.zsym import term
+
+    t0 = time.time()
+    case = [c for c in CASES if c["name"] == casename][0]
+    res = dict(engine="S", functions=case.get("targets", []), obligations=0, discharged=0, violations=[], inconclusive=[], queries=0, solver_s=0.0,
+               bounds="vars %s, backend=sympy" % (case["vars"],), sample={"case": casename, "plain": case["plain"], "backend": "sympy"})
+    nsz, assum = ucase._ns(case, "sym")
+    ref = eval(case["formula"], nsz)
+    ref = list(ref) if isinstance(ref, (tuple, list)) else [ref]
+    ns, syms = _sympy_ns(case)
+    point = {k: str(Fraction(3 + 2 * i, 2 + i) + (200 if case["vars"][k][0] == 200 else 0)) for i, k in enumerate(case["vars"])}
+    try:
+        val = eval(case["plain"], ns)
+    except Exception as e:
+        res["obligations"] = 1
+        res["violations"].append(dict(key="sympy:%s:exc" % casename, soft=True, desc="%s with backend=sympy raised %r" % (casename, e),
+                                      replay_src=REPLAY_SYMPY % dict(case=casename, point=repr(point))))
+        res["status"] = "violation"
+        return res
+    vals = list(val) if isinstance(val, (tuple, list)) else [val]
+    conv = Conv()
+    for v in case["vars"]:
+        if v.startswith("n_"):
+            conv.vars[v] = z3.ToReal(z3.Int(v))
+    tw = None
+    for i, (a, b) in enumerate(zip(vals, ref)):
+        res["obligations"] += 1
+        try:
+            az = conv(sp.sympify(a))
+        except NotImplementedError as e:
+            res["inconclusive"].append("component %d: translation: %s" % (i, e))
+            continue
+        bz = term(b)
+        if z3.is_int(bz):
+            bz = z3.ToReal(bz)
+        norm = UFNorm(assum, timeout_ms=10000)
+        r, m = norm.prove(az == bz, timeout_ms=30000)
+        res["queries"] += 1 + norm.stats["arg_queries"]
+        if tw is None:
+            tw = UFNorm(assum, timeout_ms=5000).prove(az == bz + 1)[0]
+        if r == "unsat":
+            res["discharged"] += 1
+        elif r == "sat":
+            pt = dict(point)
+            try:
+                for k in case["vars"]:
+                    pt[k] = str(model_value(m, z3.Int(k) if k.startswith("n_") else z3.Real(k)))
+            except Exception:
+                pass
+            if not res["violations"]:
+                res["violations"].append(dict(key="sympy:%s:value" % casename, soft=True,
+                                              desc="%s component %d with backend=sympy: %s differs from the formula" % (casename, i, a),
+                                              replay_src=REPLAY_SYMPY % dict(case=casename, point=repr(pt))))
+        else:
+            res["inconclusive"].append("component %d: solver %s" % (i, r))
+    res["twin"] = "violated" if tw == "sat" else ("passed" if tw == "unsat" else "unknown")
+    res["solver_s"] = time.time() - t0
+    res["status"] = "violation" if res["violations"] else ("inconclusive" if res["inconclusive"] else "discharged")
+    return res
+
+
 def tasks(tier, seed):
     import random
 
     ts = [dict(id="C16.%s" % c["name"], fn="task_case", kwargs=dict(casename=c["name"]), timeout=600) for c in CASES]
+    ts += [dict(id="C16.sympy.%s" % n, fn="task_sympy", kwargs=dict(casename=n), timeout=600) for n in SYMPY_CASES]
     ts += [dict(id="C16.piecewise.%d" % n, fn="task_piecewise", kwargs=dict(npieces=n), timeout=300) for n in (2, 3)]
     ts.append(dict(id="C16.constants", fn="task_constants", kwargs={}, timeout=60))
     tl = [t for t in trees(1) if t[0] != "leaf"] + [t for t in trees(2) if t[0] != "leaf" and t not in trees(1)]
